@@ -30,6 +30,40 @@ cb(): () == {
 cc(); cb();
 '''
 
+FLOAT_HEAD = progspace.PRELUDE + '''import from MachineInteger;
+fd(x: DoubleFloat): () == { import from DoubleFloat; stdout << "K2:" << (x ~= 0.0) << " " << (x < 0.0) << " " << x << " " << ((x * 1.0e300) * 1.0e20) << " " << ((x * 1.0e-300) * 1.0e-20) << newline }
+fs(x: SingleFloat): () == { import from SingleFloat; stdout << "K3:" << (x ~= 0.0) << " " << (x < 0.0) << " " << x << " " << ((x * 1.0e30) * 1.0e10) << " " << ((x * 1.0e-30) * 1.0e-10) << newline }
+'''
+
+
+def float_units(tier):
+    """float constants at every regime boundary of the two formats (smallest and largest denormal, powers of two in the
+    denormal range, smallest and largest normal, mantissa all-ones / one-bit patterns); thorough: every power of two of both
+    formats.  The library printer is imprecise for denormals, so every value is also printed scaled into the normal range."""
+    import struct
+    def f32(x):
+        return struct.unpack('f', struct.pack('f', x))[0]
+    dbl = [2.0 ** -1074, 2.0 ** -1073, 3 * 2.0 ** -1074, 2.0 ** -1050, 2.0 ** -1024, 2.0 ** -1023, 2.0 ** -1023 + 2.0 ** -1074, 2.0 ** -1022 - 2.0 ** -1074, 2.0 ** -1022,
+           2.0 ** -1022 + 2.0 ** -1074, 2.0 ** -1021, 1e-320, 1e-310, 2.5e-300, 2.0 ** -500, 0.5, 1.0, 1 + 2.0 ** -52, 2 - 2.0 ** -52, 0.1, 3.0, 2.0 ** 52, 2.0 ** 53 + 2, 123456.789e3,
+           2.0 ** 1022, 2.0 ** 1023, 1.7976931348623157e308]
+    sgl = [2.0 ** -149, 2.0 ** -148, 3 * 2.0 ** -149, 2.0 ** -140, 2.0 ** -128, 2.0 ** -127, 2.0 ** -127 + 2.0 ** -149, 2.0 ** -126 - 2.0 ** -149, 2.0 ** -126, 2.0 ** -125,
+           f32(1e-40), f32(1e-30), 0.5, 1.0, 1 + 2.0 ** -23, 2 - 2.0 ** -23, f32(0.1), 2.0 ** 23, 2.0 ** 24 + 2, 2.0 ** 126, 2.0 ** 127, f32(3.4028234e38)]
+    def sl(v):
+        t = '%.9g' % v
+        return t if ('.' in t or 'e' in t) else t + '.0'
+
+    def body(ds, ss):
+        return FLOAT_HEAD + 'cf(): () == {\n\timport from DoubleFloat, SingleFloat;\n' + ''.join('\tfd(%r); fd(-%r);\n' % (v, v) for v in ds) + \
+            ''.join('\tfs(%s); fs(-%s);\n' % (sl(v), sl(v)) for v in ss) + '}\ncf();\n'
+    units = [('floats', body(dbl, sgl))]
+    if tier == 'thorough':
+        es = list(range(-1074, 1024))
+        for i in range(0, len(es), 150):
+            units.append(('floats-pow2d%d' % (i // 150), body([2.0 ** e for e in es[i:i + 150]], [])))
+        units.append(('floats-pow2s', body([], [2.0 ** e for e in range(-149, 128)])))
+    return units
+
+
 DOMS = {
     'D1': 'VD1: with { mk1: MachineInteger -> %; v1: % -> MachineInteger } == add { Rep == MachineInteger; import from Rep; mk1(n: MachineInteger): % == per(n + 1); v1(x: %): MachineInteger == rep x * 2 }\n',
     'D2': 'VD2: with { f2: MachineInteger -> MachineInteger; big2: () -> MachineInteger } == add { import from MachineInteger; f2(n: MachineInteger): MachineInteger == n * n + 4294967296; big2(): MachineInteger == 4611686018427387904 }\n',
@@ -83,6 +117,7 @@ def main(tier):
     for f, c in cs:
         by.setdefault(f, []).append((f, c))
     units = [('consts', CONSTS % ('long string ' * 300, int('9' * 300), int('7' * 60)))]
+    units += float_units(tier)
     per = 1 if tier == 'quick' else 4
     for f in sorted(by):
         lst = by[f]
@@ -126,6 +161,15 @@ def main(tier):
         got = [l for l in r1.text().split('\n') if re.match(r'K\d+:', l)]
         if want != got or r0.rc != r1.rc or not want:
             out['problems'].append(('run-from-ao', 'source %s... vs saved %s...' % (want[:3], got[:3])))
+        # the interpreter itself executes the serialised form, so the executable built from the directly generated C is
+        # the reference that never went through a saved form
+        g0 = tc.cc(S, ['u.c', 'u-aldormain.c'], 'u0.exe')
+        direct = None
+        if g0.rc == 0:
+            x0 = tc.runexe(S + '/u0.exe')
+            direct = [l for l in x0.text().split('\n') if re.match(r'K\d+:', l)]
+        else:
+            out['problems'].append(('direct-c-does-not-build', g0.text()[-300:]))
         shutil.copy(S + '/u-aldormain.c', A)
         g = tc.cc(A, ['u.c', 'u-aldormain.c'], 'u.exe')
         if g.rc != 0:
@@ -133,8 +177,8 @@ def main(tier):
         else:
             x = tc.runexe(A + '/u.exe')
             got = [l for l in x.text().split('\n') if re.match(r'K\d+:', l)]
-            if want != got:
-                out['problems'].append(('run-c-from-ao', 'source %s... vs C-from-ao %s...' % (want[:3], got[:3])))
+            if direct is not None and direct != got:
+                out['problems'].append(('run-c-from-ao', 'direct C %s... vs C-from-ao %s...' % ([l for l in direct if l not in got][:3], [l for l in got if l not in direct][:3])))
         out['lines'] = want
         shutil.rmtree(d, ignore_errors=True)
         return j, out
